@@ -1042,3 +1042,7 @@ mod tests {
         }
     }
 }
+
+#[cfg(kani)]
+#[path = "/verif/harness/master_tasks_time.rs"]
+mod verif_harness;
